@@ -70,7 +70,7 @@ def useDefaultResolveConflict (act01 act02 : Action) : Action :=
     if (act02.actionType = 0) then
       act02
     else
-      if (act01.actionIndex > act02.actionIndex) then
+      if (act01.actionIndex < act02.actionIndex) then
         act02
       else
         act01
